@@ -24,7 +24,7 @@ pub fn spec() -> Spec {
     Spec {
         prop: "C04",
         level: "fault_enumeration",
-        rule: "Fault enumeration with the failpoint hook and real process deaths: for a victim call (commit after 1-6 uncommitted blocks, reorg with/without uncommitted blocks, finalise) preceded by a generated history with commits, a child process replays the history and is killed (_exit, nothing flushed or closed) immediately before the k-th RocksDB put/delete/flush of the victim; the parent reopens the directory and, for every height N that was fully committed before the crash, inside the 10-block window and not above an attempted reorg target, runs reorg(N) on a copy and compares Obs with a fresh replay to N, then extends both by two blocks and compares again. Crashes in finalise / between calls: the reopened instance must equal the state right after its last commit. Non-trivial = crash point strictly inside the victim's write sequence (k >= 1); distinct by (victim, write ordinal, N).",
+        rule: "Fault enumeration with the failpoint hook and real process deaths: for a victim call (commit after 1-6 uncommitted blocks, reorg with/without uncommitted blocks, finalise) preceded by a generated history with commits, a child process replays the history and is killed (_exit, nothing flushed or closed) immediately before the k-th RocksDB put/delete/flush of the victim; the parent reopens the directory and, for every height N that was fully committed before the crash, inside the 10-block window and not above an attempted reorg target, runs reorg(N) on a copy and compares Obs with a fresh replay to N, then extends both by two blocks and compares again. Crashes in finalise / between calls: the reopened instance must equal the state right after its last commit. Half of the victims killed outside a commit (and always the one of shard 6) have more than 1024 uncommitted blocks behind them. Non-trivial = crash point strictly inside the victim's write sequence (k >= 1); distinct by (victim, write ordinal, N).",
         assumptions: vec![
             "RocksDB hands each WAL record to the OS before put returns, so a killed process leaves exactly the writes issued so far; torn writes inside RocksDB, fsync loss on power failure and disk errors are out of reach and out of the statement".into(),
             "more than 10 blocks finalised since the last commit makes recovery impossible by design; the generator stays inside the window".into(),
@@ -299,6 +299,14 @@ fn one_victim(ctx: &WorkerCtx, rep: &mut WorkerReport, case_seed: u64, kind: &st
         after_commit_obs = Some((u.clone(), obs::observe(&mut d.inst, &u, ObsMode::Boundary)));
     }
     grow(&mut w, &mut d, tail, CommitPolicy::Never, &mut rng);
+    // a long uncommitted tail (an indexer catching up mines thousands of blocks between commits):
+    // nothing of it may be on disk when the process dies outside a commit
+    if (kind == "between-calls" || kind == "finalise") && d.ntx == 0 && (rng.chance(1, 2) || ctx.shard % 7 == 6) {
+        w.ts += 5;
+        let n = rng.range(1030, 1600);
+        d.exec(Op::Mine { n, ts: w.ts });
+        rep.count("victims_with_over_1024_uncommitted_blocks", 1);
+    }
     let hc = d.committed;
     let victim = match kind {
         "commit" => Op::Commit,
